@@ -21,6 +21,7 @@ def run(ctx: Ctx) -> None:
     ctx.rule('R-LAYOUT-Y3', 'segment boundaries of the tag newline handler are tag-adjacency predicates')
     ctx.rule('R-LAYOUT-Y4', 'both factories apply hard_break(tag_newline(base)) under is_markdown')
     ctx.rule('R-LAYOUT-Y5', 'the parser sees strip()+newline text on every path')
+    ctx.rule('R-LAYOUT-Y6', 'rendering a soft line break leaves no trace in the renderer state')
     ctx.rule('R-PREPARSE', 'tag/block spacing is forced before parsing')
     ctx.rule('R-FRONTMATTER', 'frontmatter is split off before any text processing')
     ctx.rule('R-FIELD', 'LineBreak.soft decides the break spelling')
@@ -28,6 +29,7 @@ def run(ctx: Ctx) -> None:
     ctx.run(layout.check_no_layout_reads)
     ctx.run(layout.check_whitespace_normalised)
     ctx.run(layout.check_segment_predicates)
+    ctx.run(layout.check_soft_break_is_layout)
     ctx.run(layout.check_decorator_stack)
     ctx.run(layout.check_parser_input)
     ctx.run(render.check_fields, {"LineBreak.soft"})
